@@ -1,0 +1,157 @@
+//! Verification hooks. Compiled only with `--features verif`; add-only, nothing here is used by the crate itself.
+//!
+//! They expose the crate-private `Word` as a plain mirror (`WordS`), so that an external harness can compare
+//! results structurally (feature bundles, syllables, stress, tone) instead of as rendered text, and they expose
+//! the built-in tables the way the running code sees them.
+
+use std::cell::Cell;
+use std::collections::VecDeque;
+
+use crate::{
+    apply_rule_groups, parse_aliases, parse_rule_groups, normalise,
+    lexer::FType,
+    parser::{BinMod, ModKind},
+    seg::{DiaMods, Segment},
+    syll::{StressKind, Syllable},
+    word::Word,
+    Error, NodeKind, Phrase, Place, RuleGroup, CARDINALS_MAP, CARDINALS_VEC, DIACRITS,
+};
+
+/// `(root, manner, laryngeal, place)`
+pub type SegS = (u8, u8, u8, Option<u16>);
+
+#[derive(Debug, Clone, PartialEq, Eq)]
+pub struct SyllS {
+    /// 0 = unstressed, 1 = primary, 2 = secondary
+    pub stress: u8,
+    pub tone: u16,
+    pub segs: Vec<SegS>,
+}
+
+#[derive(Debug, Clone, PartialEq, Eq)]
+pub struct WordS {
+    pub sylls: Vec<SyllS>,
+}
+
+pub fn seg_to_s(s: &Segment) -> SegS { (s.root, s.manner, s.laryngeal, *s.place) }
+
+pub fn seg_from_s(s: &SegS) -> Segment {
+    let mut place = Place::default();
+    *place = s.3;
+    Segment { root: s.0, manner: s.1, laryngeal: s.2, place }
+}
+
+fn word_to_s(w: &Word) -> WordS {
+    WordS { sylls: w.syllables.iter().map(|sy| SyllS {
+        stress: match sy.stress { StressKind::Unstressed => 0, StressKind::Primary => 1, StressKind::Secondary => 2 },
+        tone: sy.tone,
+        segs: sy.segments.iter().map(seg_to_s).collect(),
+    }).collect() }
+}
+
+fn word_from_s(w: &WordS) -> Word {
+    // `americanist` is private to `word.rs`; an empty word built by the real constructor has it `false`.
+    let mut word = Word::new(String::new(), &[]).expect("the empty string parses");
+    word.syllables = w.sylls.iter().map(|sy| Syllable {
+        segments: sy.segs.iter().map(seg_from_s).collect::<VecDeque<_>>(),
+        stress: match sy.stress { 1 => StressKind::Primary, 2 => StressKind::Secondary, _ => StressKind::Unstressed },
+        tone: sy.tone,
+    }).collect();
+    word
+}
+
+/// What `run` does to one space-free word of the input: `normalise`, then `Word::new` with the deromanisers.
+pub fn parse_word(text: &str, alias_into: &[String]) -> Result<WordS, Error> {
+    let (into, _) = parse_aliases(alias_into, &[])?;
+    Ok(word_to_s(&Word::new(normalise(text), &into)?))
+}
+
+/// `Word::render` with the romanisers.
+pub fn render_word(w: &WordS, alias_from: &[String]) -> Result<String, Error> {
+    let (_, from) = parse_aliases(&[], alias_from)?;
+    Ok(word_from_s(w).render(&from))
+}
+
+/// The word after every rule group, in order (entry `i` = the word after groups `0..=i`).
+pub fn apply_rules_structural(rules: &[RuleGroup], w: &WordS) -> Result<Vec<WordS>, Error> {
+    let rules = parse_rule_groups(rules)?;
+    let mut cur = vec![Phrase(vec![word_from_s(w)])];
+    let mut out = Vec::with_capacity(rules.len());
+    for group in rules.iter() {
+        cur = apply_rule_groups(std::slice::from_ref(group), &cur)?;
+        out.push(word_to_s(&cur[0][0]));
+    }
+    Ok(out)
+}
+
+/// Same, starting from text (so the private `americanist` flag is what `run` would have).
+pub fn run_structural(rules: &[RuleGroup], text: &str, alias_into: &[String]) -> Result<Vec<WordS>, Error> {
+    let (into, _) = parse_aliases(alias_into, &[])?;
+    let word = Word::new(normalise(text), &into)?;
+    let rules = parse_rule_groups(rules)?;
+    let mut cur = vec![Phrase(vec![word])];
+    let mut out = Vec::with_capacity(rules.len());
+    for group in rules.iter() {
+        cur = apply_rule_groups(std::slice::from_ref(group), &cur)?;
+        out.push(word_to_s(&cur[0][0]));
+    }
+    Ok(out)
+}
+
+/// `FType::from_usize(i).to_node_mask()` as `(node index, mask)`; `i < 26`.
+pub fn feat_node_mask(i: usize) -> (usize, u8) {
+    let (n, m) = FType::from_usize(i).to_node_mask();
+    let idx = (0..NodeKind::count()).find(|k| NodeKind::from_usize(*k) == n).expect("node kind has an index");
+    (idx, m)
+}
+
+/// The grapheme table in the order `CARDINALS_VEC` holds it in this process.
+pub fn cardinals() -> Vec<(String, SegS)> {
+    CARDINALS_VEC.iter().map(|k| (k.clone(), seg_to_s(CARDINALS_MAP.get(k).expect("key of the map")))).collect()
+}
+
+fn diamods_to_s(d: &DiaMods) -> (Vec<i8>, Vec<i8>) {
+    let conv = |m: &Option<ModKind>| match m {
+        None => 0,
+        Some(ModKind::Binary(BinMod::Positive)) => 1,
+        Some(ModKind::Binary(BinMod::Negative)) => -1,
+        Some(ModKind::Alpha(_)) => 2,
+    };
+    (d.nodes.iter().map(conv).collect(), d.feats.iter().map(conv).collect())
+}
+
+/// The diacritic table: `(char, prereq nodes, prereq feats, payload nodes, payload feats)`, `+1`/`-1`/`0`.
+pub fn diacritics() -> Vec<(char, Vec<i8>, Vec<i8>, Vec<i8>, Vec<i8>)> {
+    DIACRITS.iter().map(|d| {
+        let (pn, pf) = diamods_to_s(&d.prereqs);
+        let (yn, yf) = diamods_to_s(&d.payload);
+        (d.diacrit, pn, pf, yn, yf)
+    }).collect()
+}
+
+thread_local! {
+    static TICKS: Cell<u64> = const { Cell::new(0) };
+    static BUDGET: Cell<u64> = const { Cell::new(u64::MAX) };
+}
+
+/// Payload of the unwind raised when the step budget is exhausted.
+#[derive(Debug, Clone, Copy)]
+pub struct BudgetExhausted { pub site: u32, pub ticks: u64 }
+
+/// Arm the step counter: after `budget` loop iterations the next `tick` unwinds with `BudgetExhausted`.
+pub fn set_budget(budget: u64) {
+    TICKS.with(|t| t.set(0));
+    BUDGET.with(|b| b.set(budget));
+}
+
+pub fn ticks() -> u64 { TICKS.with(|t| t.get()) }
+
+/// Called at the head of each loop of the interpreter (only with `--features verif`).
+#[inline]
+pub fn tick(site: u32) {
+    let n = TICKS.with(|t| { let n = t.get() + 1; t.set(n); n });
+    if n > BUDGET.with(|b| b.get()) {
+        BUDGET.with(|b| b.set(u64::MAX));
+        std::panic::panic_any(BudgetExhausted { site, ticks: n });
+    }
+}
